@@ -418,8 +418,8 @@ class C13(common.Prop):
                    "(cos, sin) = (-vy, -vx) / sqrt(vx^2 + vy^2): a Section hypothesis of the 3-D theorems, sampled by the zrot stream",
                    "the mask of a pose body is per point (stacked from the confidence), not per coordinate",
                    "numpy.ma / tf reductions compute the masked mean (sum of observed / count) and population deviation as modelled",
-                   "normalize_distribution theorems: the statistics meet the cells of their own group (true for a leading block of axes, "
-                   "key i = i mod G; checked against the axis model of model/C13_Axes.v on every such case); for other axis tuples see "
+                   "numpy / tf broadcasting right-aligns the statistics returned by mean / std (no keepdims) as model/C13_Axes.v computes "
+                   "(sampled on every dist case; leading_block_keys proves the aligned case); for other axis tuples see "
                    "distribution_nonleading_refuted; component names are unique where get_components is involved"]
 
     # ---- tie (a)
